@@ -43,6 +43,7 @@ type Proc struct {
 	probes        []*Obligation
 	pureDepth     int
 	heapReads     int
+	forceMerge    bool
 	havocFacts    []havocFact
 	entryFacts    []*Term
 	lets          map[string]Val
